@@ -10,7 +10,7 @@ def shape_tag(cap, ln, idx):
 
 def props_for(b, by=None, base=("C01",), also=()):
     p = list(base)
-    if b == "reloc" or by == "reloc":
+    if b in ("reloc", "reloc1") or by in ("reloc", "reloc1"):
         p.append("C05")
     if b in ("stack", "stackn"):
         p.append("C11")
@@ -158,6 +158,17 @@ def define():
             H("c01_big_%s__heap_B1__l%d" % (src.lower(), ln), "c01::big::<dyn None, Heap, B1>(%d, 1, c01::Src::%s)" % (ln, src), ["C01", "C05"],
               tier="quick" if (ln == 129 and src == "Raw") else "rot4", unwind=134,
               dims=dict(len=ln, idx=1, elem="B1", backend="heap", shape_symbolic=False, note="128-byte switch in copy_bytes: count=len-1"), role="c01_big")
+    # the word-copy region of copy_bytes (64..127 bytes, odd remainders) and below, both directions
+    for ln, tier in ((100, "quick"), (70, "rot4"), (40, "rot4")):
+        H("c01_big_raw__heap_B1__l%d" % ln, "c01::big::<dyn None, Heap, B1>(%d, 1, c01::Src::Raw)" % ln, ["C01", "C05"], tier=tier, unwind=134,
+          dims=dict(len=ln, idx=1, elem="B1", backend="heap", shape_symbolic=False, note="copy_bytes count=len-1 (insert shifts towards the end)"), role="c01_big")
+    for ln, typed, tier in ((101, False, "quick"), (128, False, "rot4"), (71, True, "rot4"), (131, False, "rot4"), (42, False, "rot4")):
+        H("c01_bigrem_%s__heap_B1__l%d" % ("typed" if typed else "erased", ln), "c01::big_remove::<dyn None, Heap, B1>(%d, 1, %s)" % (ln, "true" if typed else "false"), ["C01", "C05"], tier=tier, unwind=134,
+          dims=dict(len=ln, idx=1, elem="B1", backend="heap", shape_symbolic=False, note="copy_bytes count=len-2 (remove shifts towards the start)"), role="c01_bigrem")
+    ins("Raw", False, "none", "reloc1", "heap", "B3D", L=3, cap=1, ln=1, idx="s1")
+    ins("Wrapper", True, "none", "reloc1", "heap", "B3D", L=3, cap=2, ln=2, idx="s2", tier="rot3")
+    ins("Raw", False, "none", "heap", "heap", "F4", tier="rot3")
+    ins("Raw", False, "none", "stack", "heap", "P8D", tier="rot3")
     # ---------------- thorough: full cross product on class S, more constraint sets / backends, L = 4
     for elem in ("B1", "H2", "B3D", "W8", "W8D"):
         for b in ("heap", "stack", "reloc", "stackn"):
